@@ -292,7 +292,10 @@ func shards(tier string) []string {
 func run(c *core.Ctx) {
 	c.Res.Bound = fmt.Sprintf("context chains to depth %d (BFS, one per reachable keyword) x %d child keywords x shapes (x1 x2 x3, interleaved, extension before/after/with block, no argument, every subset of mandatory substatements omitted); every keyword at top level", maxDepth(c.Tier), len(K))
 	one := func(in Input) {
-		caseNo, _ := c.Begin()
+		caseNo, run := c.Begin()
+		if c.Skip(caseNo, run, in) {
+			return
+		}
 		c.Exec()
 		c.Edge(1)
 		c.Validate()
